@@ -409,7 +409,7 @@ fn gen_f64(t: &mut Tape) -> u64 {
 pub fn units(property: &'static str, thorough: bool, seed: u64) -> Vec<Unit> {
     let mut u = Vec::new();
     let depth = 3;
-    let cases = if thorough { 20000 } else { 1500 };
+    let cases = if thorough { 30000 } else { 5000 };
     // slices of u8, three index containers cannot apply (index = u8): Vec only
     u.push(exhaustive_unit::<u8>(property, "Slice<Mirror<u8>>".into(), vec![0, 1], depth, 3, run_slice_ord::<Mirror<u8>, Vec<u8>>));
     u.push(random_unit::<u8>(property, "Slice<Mirror<u8>>".into(), cases, seed, 3, gen_u8, run_slice_ord::<Mirror<u8>, Vec<u8>>));
